@@ -881,6 +881,21 @@ func (env *SpecEnv) callExpr(x ECall) Val {
 			return Val{T: app("i2f", v.T), S: sF, GoT: types.Typ[types.Float64]}
 		}
 		return v
+	case "bytesOf":
+		// the string with the bytes of a []byte value
+		v := env.eval(x.Args[0])
+		if v.S != sSlice {
+			return env.fail("bytesOf needs a []byte")
+		}
+		e.declareByteStr()
+		var bel types.Type = types.Universe.Lookup("byte").Type()
+		if v.GoT != nil {
+			if sl, ok := v.GoT.Underlying().(*types.Slice); ok {
+				bel = sl.Elem()
+			}
+		}
+		arr := sel(e.heapTerm(env.st, e.elemHeap(bel)), slRef(v.T))
+		return Val{T: app("bytes_str", arr, slOff(v.T), slLen(v.T)), S: sStr, GoT: types.Typ[types.String]}
 	case "fabs":
 		// |x| of a float: math.Abs
 		v := env.eval(x.Args[0])
@@ -1037,6 +1052,44 @@ func (env *SpecEnv) specCall(sf *SpecFn, x ECall) Val {
 		rs := sBool
 		if rt != nil {
 			rs = e.ctx.sortOf(rt)
+		}
+		// an uninterpreted function that reads memory (elements of a slice
+		// argument, a field of the objects it points to) is a function of those
+		// heaps as well: they are passed as additional arguments
+		for _, rd := range sf.Reads {
+			var h string
+			switch {
+			case strings.HasPrefix(rd, "E:"):
+				t := denv.resolveType(rd[2:])
+				if t == nil {
+					return env.fail("spec %s reads: unknown type %s", sf.Name, rd[2:])
+				}
+				h = e.elemHeap(t)
+			case strings.HasPrefix(rd, "H:"):
+				k := strings.LastIndex(rd, ".")
+				t := denv.resolveType(rd[2:k])
+				if t == nil {
+					return env.fail("spec %s reads: unknown type %s", sf.Name, rd[2:k])
+				}
+				st, ok := t.Underlying().(*types.Struct)
+				if !ok {
+					return env.fail("spec %s reads: %s is not a struct", sf.Name, rd[2:k])
+				}
+				for i := 0; i < st.NumFields(); i++ {
+					if st.Field(i).Name() == rd[k+1:] {
+						h = e.fieldHeap(t, i)
+					}
+				}
+			}
+			if h == "" {
+				return env.fail("spec %s: cannot interpret reads item %s", sf.Name, rd)
+			}
+			if env.typeOnly || env.st == nil {
+				continue
+			}
+			ht := e.heapTerm(env.st, h)
+			asorts = append(asorts, e.heapInfos[h].sort)
+			aterms = append(aterms, ht)
 		}
 		name := "spec$" + sanitize(sf.Name)
 		if len(aterms) == 0 {
